@@ -338,7 +338,38 @@ func c12clientHandshake(r *Run, dc *sdns.ClientDnsConnection, hsDone *bool, hsEr
 func scenarioC12(r *Run) {
 	c := r.Ch
 	addr := fmt.Sprintf("%s:%d", ServerIP, 5353)
-	_, accepted, err := startDnsServer(r, addr)
+	var accepted chan net.Conn
+	var err error
+	if c.Chance(1, 4, "queries-during-start-up") {
+		// the endpoint is being started (a restart, say) while somebody is already sending it queries - a client
+		// of the previous instance still polling its session: they are refused, ignored or answered, never fatal
+		started := false
+		go func() {
+			_, accepted, err = startDnsServer(r, addr)
+			started = true
+		}()
+		for i := 0; i < 40 && !started; i++ {
+			q := new(mdns.Msg)
+			q.Id = uint16(100 + i)
+			q.RecursionDesired = true
+			name := []string{"caaaa0abcdefgh", "vaaaaabcde", "yaaaa", "zzzzz"}[i%4]
+			q.Question = []mdns.Question{{Name: name + "." + Domain + ".", Qtype: 10, Qclass: mdns.ClassINET}}
+			if data, perr := q.Pack(); perr == nil {
+				r.Net.Inject("udp", &net.UDPAddr{IP: net.ParseIP("10.6.6.7"), Port: 4500}, &net.UDPAddr{IP: net.ParseIP(ServerIP), Port: 5353}, data)
+				r.Count("queries_during_start_up")
+			}
+			r.RunFor(100 * time.Millisecond)
+		}
+		for i := 0; i < 100 && !started; i++ {
+			r.RunFor(100 * time.Millisecond)
+		}
+		if !started {
+			r.Fail("world-setup", "dns server did not start")
+			return
+		}
+	} else {
+		_, accepted, err = startDnsServer(r, addr)
+	}
 	if err != nil {
 		r.Fail("world-setup", "dns server: %v", err)
 		return
